@@ -66,7 +66,7 @@ Definition dfeed_token (s : dstate) (st : dstats) (t : token) : dfeed :=
       else DfInterface
   end.
 
-(* the local variable range_item survives from one item to the next; an empty item does not assign it *)
+(* an empty item (nothing between two commas) is skipped *)
 Inductive ddec := DItem (it : ditem) | DKeep | DError.
 Definition ddecide (s : dstate) : ddec :=
   if dhyp s then DError
@@ -81,27 +81,23 @@ Definition ddecide (s : dstate) : ddec :=
                       else DItem (Some l, Some l)
        end.
 
-Fixpoint dparse (ts : list token) (s : dstate) (st : dstats) (prev : option ditem) (items : list ditem) (sp : Z * Z) : dres :=
+Fixpoint dparse (ts : list token) (s : dstate) (st : dstats) (items : list ditem) (sp : Z * Z) : dres :=
   match ts with
   | [] => DOutOfDomain
   | t :: rest =>
       if is_eof t || is_comma t then
         match ddecide s with
         | DError => DInterface
-        | d =>
-            let cur := match d with DItem it => Some it | _ => prev end in
-            match cur with
-            | None => DLeak                                   (* UnboundLocalError: range_item *)
-            | Some it =>
-                let sp' := (snd st + fst st, fst st) in          (* (scale, precision) *)
-                if existsb (fun old => ditems_overlap old it) items then DInterface
-                else if is_eof t then DOk (Some (items ++ [it])) (fst sp') (snd sp')
-                else dparse rest dstate0 st cur (items ++ [it]) sp'
-            end
+        | DKeep => if is_eof t then DOk (Some items) (fst sp) (snd sp) else dparse rest dstate0 st items sp
+        | DItem it =>
+            let sp' := (snd st + fst st, fst st) in          (* (scale, precision) *)
+            if existsb (fun old => ditems_overlap old it) items then DInterface
+            else if is_eof t then DOk (Some (items ++ [it])) (fst sp') (snd sp')
+            else dparse rest dstate0 st (items ++ [it]) sp'
         end
       else
         match dfeed_token s st t with
-        | DfNext s' st' => dparse rest s' st' prev items sp
+        | DfNext s' st' => dparse rest s' st' items sp
         | DfInterface => DInterface
         end
   end.
@@ -110,7 +106,7 @@ Definition decrange_of_text (description : text) : dres :=
   if is_blank_text description then DOk None DEFAULT_SCALE DEFAULT_PRECISION
   else
     match tokenize_without_space (ellipsis_to_colon (replace_dots description) None false) with
-    | LOk ts => dparse ts dstate0 (0, 0) None [] (DEFAULT_SCALE, DEFAULT_PRECISION)
+    | LOk ts => dparse ts dstate0 (0, 0) [] (DEFAULT_SCALE, DEFAULT_PRECISION)
     | LTokenError => match token_error_family with FInterface => DInterface | _ => DLeak end
     | LOutOfDomain => DOutOfDomain
     end.
